@@ -206,6 +206,9 @@ class CallMixin:
         c = Ctx(self, s, st, bound, result=res)
         posts = con.ensures(c)
         s = s.assume(z3.And(*[b for _, b in posts]) if posts else z3.BoolVal(True))
+        if con.facts is not None:
+            fs = con.facts(Ctx(self, s, s, bound))
+            s = s.assume(z3.And(*[b for _, b in fs]) if fs else z3.BoolVal(True))
         if self.feasible(s.pc):
             outs.append((res, s))
         return outs
@@ -447,6 +450,12 @@ class CallMixin:
         if args or 'self' not in st.locals:
             raise Unsupported('super(...) with arguments')
         return [(SFunc('superobj', st.locals['self']), st)]
+
+    def bi_type(self, args, kwargs, st, node):
+        v = args[0]
+        if isinstance(v, SRef) and v.cls.pyclass:
+            return [(SClass(v.cls.pyclass), st)]
+        return [(SClass('object'), st)]
 
     def bi_hash(self, args, kwargs, st, node):
         self.assumptions.add('opaque values are hashable (hash() neither raises nor has side effects)')
